@@ -2766,6 +2766,15 @@ public:
       return;
     }
 
+    if (lhs == rhs) {
+      return;
+    }
+
+    // The old contents of lhs are overwritten: without forgetting its
+    // cells, a cell of lhs without counterpart in rhs would keep its
+    // old value.
+    forget_array(lhs);
+
     const array_state &as = lookup_array_state(rhs);
     if (!as.is_smashed()) {
       offset_map_t lhs_om;
